@@ -365,7 +365,8 @@ class Replayer:
             dt2 = self.call("C13", "Deserialize", "attribute route", lambda: route(dt, which))
             self.model = self.call("C13", "C13_SnapshotFaithful", "deserialize()", lambda: type(self.model).deserialize(dt2))
         elif k == "rotfit":
-            self.rot = fam.new_rot(compute=w.eager)
+            if self.rot is None:          # the same rotator object is fitted again on later rotfit steps
+                self.rot = fam.new_rot(compute=w.eager)
             self.call("C14", "RotFit", "rotator.fit(model)", lambda: self.rot.fit(self.model))
         elif k == "rotcompute":
             self.call("C11", "RotCompute", "rotator.compute()", lambda: self.rot.compute())
